@@ -324,6 +324,20 @@ func (w *YW) NetHead() uint64 {
 func (w *YW) configureDisk() {
 	s := w.S
 	w.Flav = core.Pick(s.Tape, "flavour", []string{"plain", "ctx", "snap"})
+	if s.Tape.Coin("disk-write-errors", 1, 4) {
+		// a window of consecutive failing datastore writes somewhere in the run: the Store retries
+		// its flushes, Appends may meet a full write queue, and the Syncer above must neither lose
+		// a header nor leave a gap (and, for C07, still reach its target once the window is over)
+		at := s.Tape.Draw("disk-fail-at", 80)
+		n := core.Pick(s.Tape, "disk-fail-n", []int{1, 2, 3, 5, 8})
+		w.Disk.Fault = func(class, op, key string, idx int) error {
+			if class == "write" && idx >= at && idx < at+n {
+				return simdisk.ErrInjected
+			}
+			return nil
+		}
+		s.Probe("disk-write-error-window")
+	}
 	w.ParkStoreCalls = s.Tape.Coin("park-store-calls", 1, 3)
 	w.Metrics = s.Tape.Coin("metrics", 1, 3)
 	if s.Tape.Coin("park-disk", 1, 3) {
